@@ -12,6 +12,7 @@
 (*   Probe    no buffer the pool hands out is still held: queued but not       *)
 (*            dequeued, or in a worker that has not finished decoding and      *)
 (*            encoding it (NoUseAfterPut)                                      *)
+(*   Gone     a worker told to quit (dynamic workers) leaves without a datagram *)
 (*   End      the decoded counter equals the datagrams decoded; every datagram *)
 (*            that yields data was published exactly once (AtMostOnce,         *)
 (*            ExactlyOnceIfData, NoPhantom)                                    *)
@@ -58,7 +59,11 @@ TEnd == /\ Is("End") /\ F(Ev, "n", 0) = decs /\ mq = <<>> /\ q = <<>>
         /\ \A a, c \in 1..Len(consumed) : a # c => consumed[a] # consumed[c]
         /\ {consumed[a] : a \in 1..Len(consumed)} = expect
         /\ UNCHANGED <<q, wk, mq, consumed, decs, expect>>
-TraceNext == TReset \/ TRecv \/ TDeq \/ TDec \/ TMar \/ TTop \/ TConsume \/ TProbe \/ TEnd
+(* dynamic workers: a worker told to quit leaves at its select, never with a datagram in hand *)
+TRetire == Is("Retire") /\ UNCHANGED <<q, wk, mq, consumed, decs, expect>>
+TGone == /\ Is("Gone") /\ W(Ev.w).gate \in {"Top", "none"}
+         /\ wk' = Put(wk, Ev.w, Idle) /\ UNCHANGED <<q, mq, consumed, decs, expect>>
+TraceNext == TRetire \/ TGone \/ TReset \/ TRecv \/ TDeq \/ TDec \/ TMar \/ TTop \/ TConsume \/ TProbe \/ TEnd
 TraceSpec == TraceInit /\ [][TraceNext]_tvars
 Mark == TLCSet(1, IF TLCGet(1) < l THEN l ELSE TLCGet(1))
 Accepted == \/ TLCGet(1) = Len(Trace) + 1
